@@ -104,6 +104,52 @@ SliceIds(d, labels) ==
      ELSE IF Len(vs) = 1 THEN [i \in Idx(d) |-> IF d[i].h = -1 THEN -1 ELSE 1]  \* SingleValidHitGetsSliceId1
      ELSE [i \in Idx(d) |-> IF d[i].h = -1 THEN -1 ELSE labels[pos(i)]]
 
+(* ---- bundles of overlapping slices and the pre-merge grouping (CeiloChunk.find_groups) ---- *)
+(* st: the slices table (rows sorted by base); pad: GROUPING_PRMS.height_pad_perc (integer %). *)
+(* All comparisons in units of 1/100 ft.                                                      *)
+LoLim(st, i, pad) == 100 * st[i].hmin - pad * st[i].thick
+HiLim(st, i, pad) == 100 * st[i].hmax + pad * st[i].thick
+Overlap(st, i, j, pad) == IF j < i THEN LoLim(st, i, pad) < HiLim(st, j, pad) ELSE HiLim(st, i, pad) > LoLim(st, j, pad)
+OverlapTie(st, i, j, pad) == IF j < i THEN LoLim(st, i, pad) = HiLim(st, j, pad) ELSE HiLim(st, i, pad) = LoLim(st, j, pad)
+CloseTo(st, i, pad) == {j \in Idx(st) \ {i} : Overlap(st, i, j, pad)}
+IsolatedSlice(st, i, pad) == CloseTo(st, i, pad) = {}
+AnyOverlapTie(st, pad) == \E i, j \in Idx(st) : i # j /\ OverlapTie(st, i, j, pad)
+(* FirstMatchingBundleOnly: slices are taken in table order; a non-isolated slice joins the FIRST existing *)
+(* bundle that contains one of the slices it overlaps with, else it opens a new bundle; bundles are never   *)
+(* fused afterwards                                                                                          *)
+RECURSIVE BundlesR(_, _, _, _)
+BundlesR(st, pad, i, bs) ==
+  IF i > Len(st) THEN bs
+  ELSE IF IsolatedSlice(st, i, pad) THEN BundlesR(st, pad, i + 1, bs)
+  ELSE LET hit == {k \in Idx(bs) : SeqToSet(bs[k]) \cap CloseTo(st, i, pad) # {}}
+       IN IF hit = {} THEN BundlesR(st, pad, i + 1, Append(bs, <<i>>))
+          ELSE LET k == SetMin(hit) IN BundlesR(st, pad, i + 1, [bs EXCEPT ![k] = Append(@, i)])
+Bundles(st, pad) == BundlesR(st, pad, 1, <<>>)
+(* rows of the data belonging to a bundle with a valid height, in row order *)
+BundleRows(d, sid, st, b) == SortInts(SetToSeq({r \in Valid(d) : \E q \in Idx(b) : sid[r] = st[b[q]].cid}))
+(* MajoritySliceIdSmallestOnTie: a cluster is named after the slice holding most of its hits *)
+ModeSmallest(vals) == LET S == SeqToSet(vals)
+                          cnt(x) == Cardinality({q \in Idx(vals) : vals[q] = x})
+                          best == SetMax({cnt(x) : x \in S})
+                      IN SetMin({x \in S : cnt(x) = best})
+(* the pre-merge grouping: clus = one label sequence per bundle that was actually clustered (two or more hits) *)
+RECURSIVE PreMergeR(_, _, _, _, _, _, _)
+PreMergeR(d, sid, st, bs, clus, k, acc) ==        \* acc: [g, used] group ids so far (-2 = not set), number of label sequences consumed
+  IF k > Len(bs) THEN acc
+  ELSE LET rows == BundleRows(d, sid, st, bs[k]) IN
+       IF Len(rows) < 2 THEN PreMergeR(d, sid, st, bs, clus, k + 1, acc)
+       ELSE IF acc.used >= Len(clus) \/ Len(clus[acc.used + 1]) # Len(rows) THEN [g |-> acc.g, used |-> -1]        \* taps do not line up
+       ELSE LET lab == clus[acc.used + 1]
+                name(c) == ModeSmallest([q \in 1..Cardinality({x \in Idx(rows) : lab[x] = c}) |->
+                                           sid[rows[SortInts(SetToSeq({x \in Idx(rows) : lab[x] = c}))[q]]]])
+                g2 == [r \in Idx(d) |-> IF \E x \in Idx(rows) : rows[x] = r
+                                         THEN name(lab[CHOOSE x \in Idx(rows) : rows[x] = r]) ELSE acc.g[r]]
+            IN PreMergeR(d, sid, st, bs, clus, k + 1, [g |-> g2, used |-> acc.used + 1])
+PreMergeGrouping(d, sid, st, pad, clus) ==
+  LET res == PreMergeR(d, sid, st, Bundles(st, pad), clus, 1, [g |-> [r \in Idx(d) |-> -2], used |-> 0])
+  IN [ok |-> res.used = Len(clus),
+      g  |-> [r \in Idx(d) |-> IF res.g[r] = -2 THEN sid[r] ELSE res.g[r]]]
+
 (* ---- merging of close groups (CeiloChunk._merge_close_groups) -------- *)
 (* tb: sequence of [cid, b100]; sorted once, never re-sorted; the merged   *)
 (* group keeps the id of the lower table row; one merge per iteration.     *)
